@@ -83,12 +83,13 @@ func New(cfg *Config) *Prover {
 
 // Env is the fact set at one program point.
 type Env struct {
-	p     *Prover
-	at    ssa.Instruction
-	fn    *ssa.Function
-	Facts []lin.Ineq
-	memo  map[ssa.Value]lin.Term
-	vars  map[string]bool
+	p      *Prover
+	at     ssa.Instruction
+	fn     *ssa.Function
+	Facts  []lin.Ineq
+	memo   map[ssa.Value]lin.Term
+	vars   map[string]bool
+	lenPhi map[*ssa.Phi]bool
 }
 
 func intRange(t types.Type, intBits int) (lo, hi *big.Int, ok bool) {
@@ -217,6 +218,31 @@ func (e *Env) lenTerm(x ssa.Value) lin.Term {
 		}
 	}
 	switch y := x.(type) {
+	case *ssa.Phi:
+		// a slice that only grows in a loop: s = φ(s0, append(s, …)) has len(s) ≥ len(s0)
+		var entry ssa.Value
+		grows := true
+		for _, ev := range y.Edges {
+			if c, isC := ssax.Strip(ev).(*ssa.Call); isC {
+				if cc, _ := ssax.AsCall(c); cc.FullName() == "builtin.append" && len(c.Call.Args) >= 1 && ssax.Strip(c.Call.Args[0]) == ssa.Value(y) {
+					continue
+				}
+			}
+			if entry != nil {
+				grows = false
+			}
+			entry = ev
+		}
+		if grows && entry != nil && !e.lenPhi[y] {
+			if e.lenPhi == nil {
+				e.lenPhi = map[*ssa.Phi]bool{}
+			}
+			e.lenPhi[y] = true
+			name := "len(" + e.valKey(x) + ")"
+			e.Facts = append(e.Facts, lin.GE(lin.Var(name), e.lenTerm(entry), "a slice that is only appended to in the loop keeps at least its initial length"))
+			e.p.Cfg.use("s = φ(s0, append(s, …)) ⇒ len(s) ≥ len(s0)")
+			// (the variable itself and its range facts are introduced below)
+		}
 	case *ssa.Call:
 		if c, _ := ssax.AsCall(y); c.FullName() == "builtin.append" && len(y.Call.Args) == 2 {
 			// append(a, b...) (go/ssa passes the variadic elements as one slice)
@@ -1307,6 +1333,43 @@ func (e *Env) CondCases(c ssa.Value, taken bool) []*Env {
 	if u, ok := c.(*ssa.UnOp); ok && u.Op == token.NOT {
 		return e.CondCases(u.X, !taken)
 	}
+	// `err != nil` / `err == nil` on the error a helper of the package returns (an
+	// extracted guard: if err := f.checkSize(n); err != nil {…}): one case per
+	// return of the helper with an error of that nil-ness
+	if bo, isBo := c.(*ssa.BinOp); isBo && (bo.Op == token.NEQ || bo.Op == token.EQL) {
+		if k, isK := bo.Y.(*ssa.Const); isK && k.IsNil() {
+			if ec, isCall := bo.X.(*ssa.Call); isCall {
+				g := ec.Call.StaticCallee()
+				if g != nil && g.Pkg != nil && g.Pkg == e.fn.Pkg && g != e.fn && len(g.Blocks) > 0 && !e.p.inlining[g] && g.Signature.Results().Len() == 1 {
+					if n, isN := g.Signature.Results().At(0).Type().(*types.Named); isN && n.Obj().Pkg() == nil && n.Obj().Name() == "error" {
+						wantNil := (bo.Op == token.EQL) == taken
+						sub, rename := e.paramSubst(ec)
+						var out []*Env
+						ssax.Instrs(g, func(in ssa.Instruction) {
+							ret, isRet := in.(*ssa.Return)
+							if !isRet || in.Block().Comment == "recover" || len(ret.Results) != 1 {
+								return
+							}
+							rk, isConst := ret.Results[0].(*ssa.Const)
+							isNil := isConst && rk.IsNil()
+							if isNil != wantNil {
+								return
+							}
+							for _, ce := range e.p.envsAtReturn(ret) {
+								n := e.clone()
+								n.importFacts(ce, sub, rename)
+								out = append(out, n)
+							}
+						})
+						if len(out) > 0 {
+							e.p.Cfg.use("an error-returning helper of the package returns (non-)nil only in one of the ways its body does")
+							return out
+						}
+					}
+				}
+			}
+		}
+	}
 	call, ok := c.(*ssa.Call)
 	if !ok {
 		return one()
@@ -1338,7 +1401,9 @@ func (e *Env) CondCases(c ssa.Value, taken bool) []*Env {
 		switch v := ret.Results[0].(type) {
 		case *ssa.Const:
 			if matches(v) {
-				lift(e.p.EnvAt(ret))
+				for _, ce := range e.p.envsAtReturn(ret) {
+					lift(ce)
+				}
 			}
 		case *ssa.Phi:
 			for i, ev := range v.Edges {
@@ -1367,6 +1432,32 @@ func (e *Env) CondCases(c ssa.Value, taken bool) []*Env {
 		return one()
 	}
 	e.p.Cfg.use("a bool-valued helper of the package has a given value only in one of the ways its body returns it")
+	return out
+}
+
+// envsAtReturn: the fact sets in which a return is reached — one per incoming
+// edge when its block is a join of several branch edges (the false edges of a
+// short-circuit condition meet before `return nil`), otherwise the one at the
+// return itself.
+func (p *Prover) envsAtReturn(ret *ssa.Return) []*Env {
+	b := ret.Block()
+	if len(b.Preds) < 2 {
+		return []*Env{p.EnvAt(ret)}
+	}
+	for _, in := range b.Instrs {
+		if _, isPhi := in.(*ssa.Phi); isPhi {
+			return []*Env{p.EnvAt(ret)}
+		}
+	}
+	var out []*Env
+	for _, pb := range b.Preds {
+		last := pb.Instrs[len(pb.Instrs)-1]
+		ce := p.EnvAt(last)
+		if iff, isIf := last.(*ssa.If); isIf && pb.Succs[0] != pb.Succs[1] {
+			ce.condFacts(iff.Cond, pb.Succs[0] == b, "branch")
+		}
+		out = append(out, ce)
+	}
 	return out
 }
 
